@@ -54,7 +54,8 @@ def drive_and_validate(c, mode, ntr, steps):
         c.traces_validated += ntr
         c.samples.append({"kind": "recorded trace prefix accepted by OrderedMapTrace.tla", "events": lines[:10]})
     else:
-        ctx = lines[max(0, at - 8):at]
+        start = max(i for i in range(at) if '"op":"New"' in lines[i])
+        ctx = lines[start:at]
         try:
             op = json.loads(ctx[-1]).get("op")
             crash = "crash" in json.loads(ctx[-1])
@@ -66,7 +67,9 @@ def drive_and_validate(c, mode, ntr, steps):
             sig = "retention: recorded list statistics after %s exceed live + pinned entries" % op
             if crash:
                 return lines     # a panic is C10's business
-        c.report_failure(sig, {"rejected_at_line": at, "context": ctx})
+        c.report_failure(sig, {"rejected_at_line": at, "history": ctx,
+                               "trace": {"comp": "itermap", "module": "OrderedMapTrace",
+                                         "constants": {"Iters": list(range(1, 9)), "CheckReplies": mode == "c10", "CheckRetention": mode == "c11"}}})
     return lines
 
 
